@@ -5,6 +5,26 @@ from .model import AnalysisError, ClassInfo, BUILTIN_EXC
 from .terms import SELF, FAC, NONE, Path, Cond, const, is_const, mentions, show
 
 
+
+def _bound_in(fnode):
+    """Names a function binds itself (parameters, assignment / loop / with / except targets): not free variables."""
+    out = getattr(fnode, "_bound_names", None)
+    if out is None:
+        out = {a.arg for a in fnode.args.args + fnode.args.kwonlyargs + fnode.args.posonlyargs}
+        if fnode.args.vararg:
+            out.add(fnode.args.vararg.arg)
+        if fnode.args.kwarg:
+            out.add(fnode.args.kwarg.arg)
+        nonlocal_ = set()
+        for x in ast.walk(fnode):
+            if isinstance(x, ast.Name) and isinstance(x.ctx, ast.Store):
+                out.add(x.id)
+            elif isinstance(x, (ast.Nonlocal, ast.Global)):
+                nonlocal_ |= set(x.names)
+        out -= nonlocal_
+        fnode._bound_names = out
+    return out
+
 class StmtMixin:
 
     # ---- assignment ------------------------------------------------------
@@ -76,6 +96,13 @@ class StmtMixin:
     def assign(self, t, val, st, fx, node):
         if isinstance(t, ast.Name):
             st.env[t.id] = val
+            # closures see the enclosing frame's variables by reference: a local bound after the inner function was defined
+            # (def expired(): ping.alarm = None ... ; ping = self._pingReq) is what the closure reads when it runs
+            for v in list(st.env.values()):
+                if isinstance(v, tuple) and len(v) == 3 and v[0] == "closure" and v[2] in getattr(self, "_closure_env", {}):
+                    cenv, _cs, cfi = self._closure_env[v[2]]
+                    if cfi.parent is fx.func and t.id not in _bound_in(cfi.node):
+                        cenv[t.id] = val
             yield None, st
         elif isinstance(t, (ast.Tuple, ast.List)):
             if isinstance(val, tuple) and val[0] in ("tuple", "list") and len(val[1]) == len(t.elts):
